@@ -4,7 +4,7 @@
 From TL Require Import Lib.Base Lib.GenTypes Model.LocTypes Gen.LocGen Model.Loc Model.LocRun Actual.LocActual.
 
 Definition only (i : nat) : lquirks :=
-  Build_lquirks (i =? 0) (i =? 1) (i =? 2) (i =? 3).
+  Build_lquirks (i =? 0) (i =? 1) (i =? 2) (i =? 3) (i =? 4).
 Definition refutes (i : nat) (f : lfile) (c : construct) : Prop :=
   wf_construct f c = true
   /\ loc_ok f c (model_line (only i) c) (model_col (only i) f c) = false
@@ -24,29 +24,34 @@ Example C12_ts_decorated_class_now_ok :
   loc_ok w_deco (K "srp.ts" "DataHandler" 1 0 0 0) (model_line loc_actual (K "srp.ts" "DataHandler" 1 0 0 0))
          (model_col loc_actual w_deco (K "srp.ts" "DataHandler" 1 0 0 0)) = true
   /\ judge loc_actual w_deco [K "srp.ts" "DataHandler" 1 0 0 0] [R "srp.ts" "DataHandler" 2 0 ["DataHandler"] ["class "] true]
-     = [[true; true; true; true; true; true; true; true]]
+     = [[true; true; true; true; true; true; true; true; true]]
   /\ judge loc_actual w_deco [K "srp.ts" "DataHandler" 1 0 0 0] [R "srp.ts" "DataHandler" 1 0 ["DataHandler"] ["class "] true]
-     = [[false; true; false; false; false; false; false; false]].
+     = [[false; true; false; false; false; false; false; false; false]].
+Proof. vm_compute. repeat split; reflexivity. Qed.
+
+(* an arrow function whose declaration is broken after `=`: the quoted name `g` is on line 1, line 2 is reported *)
+Definition w_arrow : lfile := ["const g ="; "  (a) => {"; "    if (a) { if (a) { h(); } }"; "  };"].
+Theorem C12_ts_arrow_node_start_refuted : refutes 1 w_arrow (K "nesting.ts" "g" 0 6 1 2).
 Proof. vm_compute. repeat split; reflexivity. Qed.
 
 (* console / .log( on two lines *)
 Definition w_console : lfile := ["function f() {"; "  console"; "    .log(1);"; "}"].
-Theorem C12_ts_console_chain_start_refuted : refutes 1 w_console (K "print.ts" "log" 2 5 1 2).
+Theorem C12_ts_console_chain_start_refuted : refutes 2 w_console (K "print.ts" "log" 2 5 1 2).
 Proof. vm_compute. repeat split; reflexivity. Qed.
 
 (* temporal language numbered inside the header text: the phrase is on file line 5, header line 3 is reported *)
 Definition w_header : lfile := ["#!/usr/bin/env python3"; """"""""; "Purpose: Parses things"; ""; "Overview: It currently works."; """"""""].
-Theorem C12_fh_header_relative_refuted : refutes 2 w_header (K "file-header.atemporal" "currently" 4 13 2 0).
+Theorem C12_fh_header_relative_refuted : refutes 3 w_header (K "file-header.atemporal" "currently" 4 13 2 0).
 Proof. vm_compute. repeat split; reflexivity. Qed.
 
 (* constant column 1 on an empty first line *)
 Definition w_empty_first : lfile := [""; "def f():"; "    return 1"].
-Theorem C12_col_const_unclamped_refuted : refutes 3 w_empty_first (K "file-header.missing" "" 0 0 0 0).
+Theorem C12_col_const_unclamped_refuted : refutes 4 w_empty_first (K "file-header.missing" "" 0 0 0 0).
 Proof. vm_compute. repeat split; reflexivity. Qed.
 
 (* the judge attributes a report at the faithful position to the flag: the property fails for the report, the claimed
    vector explains it, switching the flag off does not, the ideal model satisfies the property *)
 Theorem C12_judge_attributes_chain :
   judge loc_actual w_chain [K "unwrap" "" 3 9 1 12] [R "unwrap" "" 2 12 ["let x = foo"] [] true]
-  = [[false; true; true; false; true; true; true; false]].
+  = [[false; true; true; false; true; true; true; true; false]].
 Proof. vm_compute. reflexivity. Qed.
